@@ -129,17 +129,17 @@ Proof.
       destruct (6 <? c_pto_count c1); cbn [fst]; ccbn; [lia|].
       destruct (c_pending_burst c1); [|cbn [fst]; lia].
       unfold cc_send_quota. destruct (pacer_schedule _ _ _ _ _) as (p, q). cbn [fst]. ccbn.
-      destruct (c_mtu c1 <=? q); ccbn; lia.
+      destruct (c_mtu c1 <=? _); ccbn; lia.
     + cbn [andb]. destruct (c_pending_burst c); [|cbn [fst]; lia].
       unfold cc_send_quota. destruct (pacer_schedule _ _ _ _ _) as (p, q). cbn [fst]. ccbn.
-      destruct (c_mtu c <=? q); ccbn; lia.
+      destruct (c_mtu c <=? _); ccbn; lia.
   - destruct (which =? 0); [|destruct (which =? 1)]; cbn [fst]; ccbn; lia.
   - destruct ((0 <=? e) && (e <=? 1)) eqn:Ee; [|cbn [fst]; lia]. cbn [fst].
     apply andb_true_iff in Ee. destruct Ee as (E1 & E2). apply Z.leb_le in E1, E2.
     assert (He : In e epochs) by (assert (e = 0 \/ e = 1) by lia; cbn; intuition).
     destruct (cwnd_discard c ri e He H) as (B & _). rewrite B. lia.
   - unfold cc_send_quota. destruct (pacer_schedule _ _ _ _ _) as (p, q). ccbn.
-    destruct (c_mtu c <=? q); cbn [fst]; ccbn; lia.
+    destruct (c_mtu c <=? _); cbn [fst]; ccbn; lia.
   - cbn [fst]. ccbn. lia.
   - cbn [fst]. lia.
 Qed.
@@ -197,27 +197,15 @@ Qed.
 Lemma pow2_succ k : 0 <= k -> 2 ^ (k + 1) = 2 * 2 ^ k.
 Proof. intro H. rewrite Z.pow_add_r by lia. change (2 ^ 1) with 2. lia. Qed.
 
-(* F17: as coded only the variance term is backed off *)
-Definition F17_class (ri : rin) : Prop := 0 < i_srtt ri.
+(* F17 (fixed by b1af7bb): the whole base is backed off, successive intervals double *)
+Lemma p_c13_pto_doubles ri k : 0 <= k -> base_pto ri (k + 1) = 2 * base_pto ri k.
+Proof. unfold base_pto. intros Hk. rewrite pow2_succ by lia. lia. Qed.
 
-Lemma p_c13_pto_doubles_refuted :
-  exists ri k, 0 <= k /\ 0 <= i_srtt ri /\ 0 <= i_rttvar ri /\ base_pto ri (k + 1) <> 2 * base_pto ri k.
-Proof. exists (mkrin 56250002 50000000 25000000 50000000 1 0), 0. vm_compute. repeat split; congruence. Qed.
-
-Lemma p_c13_pto_doubles ri k : 0 <= k -> ~ F17_class ri -> 0 <= i_srtt ri ->
-  base_pto ri (k + 1) = 2 * base_pto ri k.
+Lemma p_c13_pto_backoff ri k : 0 <= k -> 0 <= i_srtt ri ->
+  0 < base_pto ri k /\ base_pto ri k < base_pto ri (k + 1).
 Proof.
-  unfold F17_class, base_pto. intros Hk Hc Hs. assert (i_srtt ri = 0) by lia.
-  rewrite pow2_succ by lia. lia.
-Qed.
-
-(* what does hold for every input: the backed-off term doubles and the interval strictly grows *)
-Lemma p_c13_pto_backoff ri k : 0 <= k -> 0 <= i_rttvar ri ->
-  base_pto ri (k + 1) - i_srtt ri = 2 * (base_pto ri k - i_srtt ri) /\
-  base_pto ri k < base_pto ri (k + 1).
-Proof.
-  unfold base_pto, GRANULARITY. intros Hk Hv. rewrite pow2_succ by lia.
-  assert (0 < 2 ^ k) by (apply Z.pow_pos_nonneg; lia). split; [lia|nia].
+  intros Hk Hs. rewrite p_c13_pto_doubles by lia. unfold base_pto, GRANULARITY.
+  assert (0 < 2 ^ k) by (apply Z.pow_pos_nonneg; lia). split; nia.
 Qed.
 
 (* ------------------------------------------------------------------ *)
@@ -280,7 +268,7 @@ Proof.
         -- destruct (cc_send_quota c1 ri) as (c2, q) eqn:Eq. unfold cc_send_quota in Eq.
            destruct (pacer_schedule _ _ _ _ _) as (p0, q0). inversion Eq; subst. ccbn.
            cbn [o_result]. split; [|discriminate].
-           split; [discriminate|]. intros (_ & X). destruct (c_mtu c1 <=? q); ccbn in X; lia.
+           split; [discriminate|]. intros (_ & X). destruct (c_mtu c1 <=? _); ccbn in X; lia.
         -- cbn [o_result]. split; [|discriminate]. split; [discriminate|]. intros (_ & X). lia.
     + apply Z.leb_gt in Et. cbn [andb].
       destruct (c_pending_burst c).
@@ -331,18 +319,18 @@ Proof.
   pose proof (flight_nonneg _ (H4 0)). split; destruct infl; lia.
 Qed.
 
-(* F16: the quota is the pacer bucket alone *)
-Lemma quota_is_bucket c ri :
-  snd (cc_send_quota c ri) = pc_tokens (c_pacer (fst (cc_send_quota c ri))) /\
+(* send_quota (after the `fix:` for F16) = min(pacer tokens, room in the window) *)
+Lemma quota_bound c ri :
+  snd (cc_send_quota c ri) <= window_room c /\
+  snd (cc_send_quota c ri) <= pc_tokens (c_pacer (fst (cc_send_quota c ri))) /\
   c_reno (fst (cc_send_quota c ri)) = c_reno c.
 Proof.
   unfold cc_send_quota. destruct (pacer_schedule (c_pacer c) _ _ _ _) as (p, q) eqn:E. ccbn.
-  unfold pacer_schedule in E. destruct (pc_cwnd (c_pacer c) =? cwnd (c_reno c)); inversion E; subst; ccbn; auto.
+  unfold pacer_schedule in E.
+  destruct (pc_cwnd (c_pacer c) =? cwnd (c_reno c)); inversion E; subst; ccbn;
+    (split; [lia|split; [cbn [pc_tokens]; lia|reflexivity]]).
 Qed.
 
-(* conditional theorem: if every packet of a burst is sent while the bytes already in flight plus
-   the burst so far still fit in the window (the test the code does not make), bytes_in_flight
-   never exceeds the window during the burst *)
 Fixpoint burst (c : cc) (ri : rin) (l : list (Z * Z * bool * bool * Z)) : cc :=
   match l with
   | [] => c
@@ -358,17 +346,56 @@ Fixpoint burst_bytes (l : list (Z * Z * bool * bool * Z)) : Z :=
 Lemma burst_bytes_nonneg l : 0 <= burst_bytes l.
 Proof. induction l as [|[[[[e pn] el] infl] b] rest IH]; cbn [burst_bytes]; [lia|]. destruct infl; lia. Qed.
 
-Lemma p_c13_send_within_window c ri l : reach c ->
+Lemma burst_bif c ri l : reach c ->
   Forall (fun x => In (fst (fst (fst (fst x)))) epochs) l ->
-  bif (c_reno c) + burst_bytes l <= cwnd (c_reno c) ->
-  bif (c_reno (burst c ri l)) <= cwnd (c_reno (burst c ri l)).
+  bif (c_reno (burst c ri l)) <= bif (c_reno c) + burst_bytes l /\
+  cwnd (c_reno (burst c ri l)) = cwnd (c_reno c).
 Proof.
-  revert c. induction l as [|[[[[e pn] el] infl] b] rest IH]; intros c Hr Hf Hb; cbn [burst burst_bytes] in *.
-  - pose proof (burst_bytes_nonneg []). cbn in Hb. lia.
+  revert c. induction l as [|[[[[e pn] el] infl] b] rest IH]; intros c Hr Hf; cbn [burst burst_bytes] in *.
+  - split; lia.
   - inversion Hf as [|? ? He Hrest]; subst. cbn [fst] in He.
     destruct (sent_step_bif c ri e pn el infl b Hr He) as (A & B).
-    apply IH; [apply reachS; [exact Hr|exact He]|exact Hrest|].
-    rewrite B. pose proof (burst_bytes_nonneg rest). destruct infl; lia.
+    destruct (IH _ (reachS c ri (OpSent e pn el infl b) Hr He) Hrest) as (C & D). rewrite D, B. split; [lia|reflexivity].
+Qed.
+
+(* c13_send_within_window, full strength: whatever the history and the RTT inputs, if send_quota
+   grants a positive quota while no PTO probe is pending, any burst of packets whose in-flight
+   bytes fit in that quota leaves bytes_in_flight within the congestion window *)
+Lemma p_c13_send_within_window c ri ri' l : reach c -> probe_pending c = false ->
+  0 < o_result (snd (cc_step c ri OpQuota)) ->
+  Forall (fun x => In (fst (fst (fst (fst x)))) epochs) l ->
+  burst_bytes l <= o_result (snd (cc_step c ri OpQuota)) ->
+  let c' := burst (fst (cc_step c ri OpQuota)) ri' l in
+  bif (c_reno c') <= cwnd (c_reno c').
+Proof.
+  intros Hr Hp Hq Hf Hb. cbn zeta.
+  pose proof (reachS c ri OpQuota Hr I) as Hr1.
+  destruct (burst_bif (fst (cc_step c ri OpQuota)) ri' l Hr1 Hf) as (A & B).
+  rewrite B. cbn [cc_step] in *.
+  destruct (quota_bound c ri) as (Q1 & _ & Q3).
+  destruct (cc_send_quota c ri) as (c1, q). cbn [fst snd] in *.
+  unfold window_room in Q1. rewrite Hp in Q1.
+  destruct (c_mtu c1 <=? q); cbn [fst snd o_result] in *; [|lia].
+  ccbn in A. rewrite Q3 in *. lia.
+Qed.
+
+(* with a probe pending (RFC 9002 7.5) the overshoot is at most one datagram *)
+Lemma p_c13_probe_overshoot c ri ri' l : reach c ->
+  0 < o_result (snd (cc_step c ri OpQuota)) ->
+  Forall (fun x => In (fst (fst (fst (fst x)))) epochs) l ->
+  burst_bytes l <= o_result (snd (cc_step c ri OpQuota)) ->
+  let c' := burst (fst (cc_step c ri OpQuota)) ri' l in
+  bif (c_reno c') <= Z.max (cwnd (c_reno c')) (bif (c_reno c) + c_mtu c).
+Proof.
+  intros Hr Hq Hf Hb. cbn zeta.
+  pose proof (reachS c ri OpQuota Hr I) as Hr1.
+  destruct (burst_bif (fst (cc_step c ri OpQuota)) ri' l Hr1 Hf) as (A & B).
+  rewrite B. cbn [cc_step] in *.
+  destruct (quota_bound c ri) as (Q1 & _ & Q3).
+  destruct (cc_send_quota c ri) as (c1, q). cbn [fst snd] in *.
+  unfold window_room in Q1.
+  destruct (c_mtu c1 <=? q); cbn [fst snd o_result] in *; [|lia].
+  ccbn in A. rewrite Q3 in *. destruct (probe_pending c); lia.
 Qed.
 
 (* ------------------------------------------------------------------ *)
@@ -390,18 +417,19 @@ Lemma p_c13_loss_needs_later_ack_refuted :
               s_la (c_sp c 2) = None /\ cwnd (c_reno c) = 10800.
 Proof. vm_compute. eexists. repeat split. Qed.
 
-(* F16: ten full-size packets fill the window, 30 ms later the pacer grants a full bucket again *)
+(* F16 regression history (fixed): ten full-size packets fill the window; 30 ms later the pacer
+   bucket is full again but send_quota refuses (no room in the window) *)
 Definition f16_history : list (rin * cc_op) :=
   [(ri0, OpGrant); (ri0, OpQuota)] ++
   map (fun pn => (ri0, OpSent 2 pn true true 1200)) [0; 1; 2; 3; 4; 5; 6; 7; 8; 9] ++
-  [(ri0, OpAdv 30000000); (mkrin 37124999 33000000 16500000 0 0 13636, OpQuota);
-   (ri0, OpSent 2 10 true true 1200); (ri0, OpSent 2 11 true true 1200)].
+  [(ri0, OpAdv 30000000); (mkrin 37124999 33000000 16500000 0 0 13636, OpQuota)].
 
-Lemma p_c13_send_within_window_refuted :
+Lemma p_c13_f16_regression :
   let '(c, outs) := run_ops (cc_new true 1200 25000000) f16_history in
-  exists out, nth_error outs 13 = Some out /\ o_result out = 12000 /\
-              bif (c_reno c) = 14400 /\ cwnd (c_reno c) = 12000.
-Proof. vm_compute. eexists. repeat split. Qed.
+  exists o1 o13, nth_error outs 1 = Some o1 /\ o_result o1 = 12000 /\
+              nth_error outs 13 = Some o13 /\ o_result o13 = -1 /\
+              bif (c_reno c) = 12000 /\ cwnd (c_reno c) = 12000 /\ pc_tokens (c_pacer c) = 12000.
+Proof. vm_compute. do 2 eexists. repeat split. Qed.
 
 (* F25: six packets in 1 ms, first expiry: three index-consecutive losses take the window from
    12000 to 10800 and then to 5400 in the same event and leave no recovery period open *)
